@@ -122,6 +122,11 @@ def build(ctx, p):
     _, model, rm, _ = M.get(mname)
     kind = p['i'] % 3
     extra = (':op1', ':op2', ':op10', ':op3', ':ARG0', ':ARG1', ':snt2', ':snt10')
+    if p['i'] % 5 < 2:
+        # differently spelled roles whose keys are equal (no suffix = suffix 0, zero padding): ties
+        # that must keep their written order
+        extra = (':op', ':op0', ':op00', ':op1', ':op01', ':op001', ':snt2', ':snt002', ':ARG', ':ARG0', ':ARG00')
+        ctx.count('tie_roles')
     if kind == 0:
         vs, triples = G.rand_graph(rng, rm, bases=G.BASES + list(extra))
         rng.shuffle(triples)
